@@ -526,6 +526,9 @@ func (e *Ev) evalCond(n *Node, sc *Scope) Res {
 	eo := c.ErrOK || sel.ErrOK
 	st, ot := sel.V.Type(), oth.V.Type()
 	switch {
+	case isDynNull(sel.V) && !isDynNull(oth.V):
+		// null converts to the type of the other branch, which is the type of the conditional
+		return okR(cty.NullVal(ot)).withErrOK(eo)
 	case isDynNull(sel.V) || isDynNull(oth.V):
 		return okR(sel.V).withErrOK(eo)
 	case st.Equals(ot):
@@ -1163,6 +1166,36 @@ func (e *Ev) evalParts(ws []*wpart, sc *Scope) Res {
 		return b
 	}
 	return okR(cty.StringVal(sb.String())).withErrOK(anyErrOK(rs...))
+}
+
+// StripTokenHazard reports whether the tree contains a left strip marker (${~ or %{~)
+// directly after a literal that ends in  [$%] blanks newline.  The fork's scanner
+// cuts such a literal into the tokens "$ " and "\n" in heredoc / standalone template
+// mode (but into "$" and " \n" in quoted mode) and the strip marker only trims the
+// last token, so the two spellings of one template disagree (known finding).
+func StripTokenHazard(root *Node) bool {
+	found := false
+	Walk(root, func(n *Node) {
+		if n.K != KTmpl {
+			return
+		}
+		ws := work(n.Parts)
+		var evs []tev
+		flatten(ws, &evs)
+		for i, ev := range evs {
+			if ev.lit == nil && ev.l && i > 0 && evs[i-1].lit != nil {
+				s := *evs[i-1].lit
+				if !strings.HasSuffix(s, "\n") {
+					continue
+				}
+				t := strings.TrimRight(s[:len(s)-1], " \t")
+				if len(t) < len(s)-1 && (strings.HasSuffix(t, "$") || strings.HasSuffix(t, "%")) {
+					found = true
+				}
+			}
+		}
+	})
+	return found
 }
 
 // ---------------------------------------------------------------- comparison
